@@ -3,7 +3,7 @@
     the in-process fake server) versus Model/Range.v evaluated on the same inputs, plus the model-level test
     of the hypothesis of [C13_sliced_eq_unsliced_partial] (model pipeline = reference runs). *)
 From Coq Require Import List String ZArith NArith Bool.
-From PintV Require Import Common.GoTime Model.Range Model.RangeRef.
+From PintV Require Import Common.GoTime Model.Range Model.RangeRef Model.RangeStream.
 Import ListNotations.
 Open Scope string_scope.
 Open Scope Z_scope.
@@ -49,12 +49,30 @@ Inductive case :=
         (obs_slices : list tr) (obs_final : list range)
   (** end to end: Prometheus.RangeQuery against the fake server; [obs_requests] = (start,end) of the
       query_range requests the server received, sorted by start, as the server parsed them *)
-| CE2E (id : N) (start end_ lookback step : Z) (ss : cseries) (obs_requests : list tr) (obs_final : list range).
+| CE2E (id : N) (start end_ lookback step : Z) (ss : cseries) (obs_requests : list tr) (obs_final : list range)
+  (** streamSampleStream on a response body: the elements of "result" in response order (metric object with sorted keys,
+      ascending sample timestamps), the fingerprint labels.Hash gives each distinct label set, and the observed
+      MetricTimeRanges (before ExpandRangesEnd), in order *)
+| CStream (id : N) (step : Z) (elems : list (metric * list Z)) (fps : list (metric * N)) (obs : list range).
 
 Definition case_id (c : case) : N :=
   match c with
   | CSlice id _ _ _ _ _ | CAppend id _ _ _ _ _ | COverlaps id _ _ _ _ | CMerge id _ _ _ _
-  | CGaps id _ _ _ _ _ _ _ | CPipe id _ _ _ _ _ _ _ _ | CE2E id _ _ _ _ _ _ _ => id
+  | CGaps id _ _ _ _ _ _ _ | CPipe id _ _ _ _ _ _ _ _ | CE2E id _ _ _ _ _ _ _ | CStream id _ _ _ _ => id
+  end.
+
+Fixpoint metric_eqb (a b : metric) : bool :=
+  match a, b with
+  | [], [] => true
+  | (k, v) :: r, (k', v') :: r' => String.eqb k k' && String.eqb v v' && metric_eqb r r'
+  | _, _ => false
+  end.
+
+(** labels.Hash as a finite table; a label set that is not in the table (e.g. one the decoder made up) hashes to 0 *)
+Fixpoint table_hash (t : list (metric * N)) (m : metric) : N :=
+  match t with
+  | [] => 0%N
+  | (m', h) :: r => if metric_eqb m m' then h else table_hash r m
   end.
 
 Definition gaps_fuel (step from until : Z) : nat := Z.to_nat ((until - from) / step + 3).
@@ -105,6 +123,8 @@ Definition check (c : case) : option string :=
                   if ranges_eqb fin (canon ref) then None else Some "pipe-model-vs-reference-runs"
             end
       end
+  | CStream _ step elems fps obs =>
+      if ranges_eqb (stream_elems (table_hash fps) step [] elems []) obs then None else Some "streamSampleStream"
   | CE2E _ start end_ lookback step ss obs_requests obs_final =>
       let q := slice_size step in
       let fuel := if q <=? 0 then O else slice_fuel start end_ q in
